@@ -1,5 +1,5 @@
 (* C13 - disconnect always releases the connection; a new connection starts clean. *)
-From LibFtp Require Import Bytes Decimal Reply Endpoint Ascii DataConn DataConn_Proofs Client Client_Proofs Login_Proofs Transfer_Proofs Transfer_More Modes_Proofs Ctl_Proofs History_Proofs History2_Proofs Session_Proofs.
+From LibFtp Require Import Bytes Decimal Reply Endpoint Ascii DataConn DataConn_Proofs Client Client_Proofs Login_Proofs Transfer_Proofs Transfer_More Modes_Proofs Ctl_Proofs History_Proofs History2_Proofs Session_Proofs Tls_Global Closing_Global.
 Local Open Scope N_scope.
 
 (* non-graceful disconnect from ANY state (failed control or data handshake, dead peer, exception in the middle of
@@ -71,3 +71,26 @@ Theorem C13_quit_releases_tls : forall w r rest x,
       [ECtl (CTlsShutdown true); ECtl CTcpShutdown; ECtl CClose; ECtl (CSetSsl false)].
 Proof. exact quit_call_tls. Qed.
 Print Assumptions C13_quit_releases_tls.
+
+(* ------------------------------------------------------------------ every call, every state, every server *)
+(* [R w w']: w' is w with events added; a client that was not connected is still not connected; and if a 421 reply was
+   read among those events ([has421]), the client is not connected at the end.
+   Any call but connect (returning or throwing): *)
+Theorem C13_421_anywhere_disconnects : forall a w, ~ is_connect a -> R w (snd (step w a)).
+Proof. exact step_421_disconnects. Qed.
+Print Assumptions C13_421_anywhere_disconnects.
+
+(* ... and connect itself: a 421 as the greeting, after a 120, as the answer to AUTH TLS or to a command of the login *)
+Theorem C13_421_during_connect_disconnects : forall h p l w,
+  exists tr, w_trace (snd (step w (AConnect h p l))) = w_trace w ++ tr /\
+    (has421 tr -> w_open (snd (step w (AConnect h p l))) = false).
+Proof. exact connect_421_disconnects. Qed.
+Print Assumptions C13_421_during_connect_disconnects.
+
+Example C13_completion_421_example :
+  let w0 := init_world (mkConfig Passive true TBinary false false) completion421_script in
+  let '(os, w) := steps w0 [AConnect [104] 21 None; ADownload [102] None None] in
+  os = [OReturn (RvReplies [mkReply 220 []]);
+        OReturn (RvReplies [mkReply 229 [40;124;124;124;53;124;41]; mkReply 150 []; mkReply 421 []])] /\
+  w_open w = false /\ has421 (w_trace w).
+Proof. exact completion_421_example. Qed.
